@@ -737,6 +737,87 @@ def gen_solver_glue(sc: ast.AST) -> str:
     return "\n".join(out) + "\n"
 
 
+
+# ----------------------------------------------------------------------------- BinaryOp.jacobian_row
+
+
+def gen_binop_jacrow(ex: ast.AST) -> str:
+    """`BinaryOp.jacobian_row` (the per-node Jacobian-row shortcut that compute_jacobian tries first):
+    a chain of `if <op test> and isinstance(self.<side>, Constant): if hasattr(self.<other>, "jacobian_row"): …`
+    statements, each either returning the other operand's row unchanged or scaling it.  Translated
+    statement by statement into `Generated.binJacRow`."""
+    cls = None
+    for n in ast.walk(ex):
+        if isinstance(n, ast.ClassDef) and n.name == "BinaryOp":
+            cls = n
+    if cls is None:
+        raise TranslateError("class BinaryOp not found")
+    fn = None
+    for n in cls.body:
+        if isinstance(n, ast.FunctionDef) and n.name == "jacobian_row":
+            fn = n
+    if fn is None:
+        raise TranslateError("BinaryOp.jacobian_row not found")
+    body = [st for st in fn.body if not (isinstance(st, ast.Expr) and isinstance(st.value, ast.Constant))]
+    if not body or _u(body[-1]) != "return None":
+        raise TranslateError("BinaryOp.jacobian_row: last statement is not `return None`")
+    opname = {"+": ".add", "-": ".sub", "*": ".mul", "/": ".div", "**": ".pow"}
+    scale_txt = {
+        "[Constant(c * e.value) if isinstance(e, Constant) else BinaryOp(Constant(c), e, '*') for e in row]": "scaleLeft",
+        "[Constant(c * e.value) if isinstance(e, Constant) else BinaryOp(e, Constant(c), '*') for e in row]": "scaleRight",
+    }
+    lines = []
+    for st in body[:-1]:
+        if not isinstance(st, ast.If) or st.orelse:
+            raise TranslateError(f"BinaryOp.jacobian_row: statement outside the whitelist: {_u(st)[:70]!r}")
+        t = st.test
+        if not (isinstance(t, ast.BoolOp) and isinstance(t.op, ast.And) and len(t.values) == 2):
+            raise TranslateError(f"BinaryOp.jacobian_row: test {_u(t)!r}")
+        optest, inst = t.values
+        ot = _u(optest)
+        if ot.startswith("self.op in "):
+            ops = list(ast.literal_eval(optest.comparators[0]))
+        elif ot.startswith("self.op == "):
+            ops = [ast.literal_eval(optest.comparators[0])]
+        else:
+            raise TranslateError(f"BinaryOp.jacobian_row: operator test {ot!r}")
+        if any(o not in opname for o in ops):
+            raise TranslateError(f"BinaryOp.jacobian_row: operators {ops}")
+        it = _u(inst)
+        if it == "isinstance(self.right, Constant)":
+            cside, other, row = "r", "left", "rowL"
+        elif it == "isinstance(self.left, Constant)":
+            cside, other, row = "l", "right", "rowR"
+        else:
+            raise TranslateError(f"BinaryOp.jacobian_row: constant test {it!r}")
+        if len(st.body) != 1 or not isinstance(st.body[0], ast.If) or st.body[0].orelse or \
+                _u(st.body[0].test) != f"hasattr(self.{other}, 'jacobian_row')":
+            raise TranslateError(f"BinaryOp.jacobian_row: inner guard of the {ot} case")
+        inner = st.body[0].body
+        cond = "(" + " || ".join(f"op == {opname[o]}" for o in ops) + f") && isConstE {cside}"
+        call = f"self.{other}.jacobian_row(variables)"
+        if len(inner) == 1 and _u(inner[0]) == f"return {call}":
+            lines.append(f"  if {cond} then {row} else")
+            continue
+        if len(inner) == 2 and _u(inner[0]) == f"row = {call}" and isinstance(inner[1], ast.If) \
+                and _u(inner[1].test) == "row is not None" and not inner[1].orelse and len(inner[1].body) == 2:
+            cval = "right" if cside == "r" else "left"
+            if _u(inner[1].body[0]) != f"c = self.{cval}.value" or not isinstance(inner[1].body[1], ast.Return):
+                raise TranslateError(f"BinaryOp.jacobian_row: scaling case {ot}: {[_u(x)[:50] for x in inner[1].body]}")
+            comp = _u(inner[1].body[1].value)
+            if comp not in scale_txt:
+                raise TranslateError(f"BinaryOp.jacobian_row: scaled row {comp!r}")
+            lines.append(f"  match (if {cond} then {row} else none) with")
+            lines.append(f"  | some row => some (row.map ({scale_txt[comp]} (cstOf {cside})))")
+            lines.append("  | none =>")
+            continue
+        raise TranslateError(f"BinaryOp.jacobian_row: body of the {ot} case: {[_u(x)[:50] for x in inner]}")
+    out = "/-- `BinaryOp.jacobian_row`, given the rows of the two operands (`none` = the method returned None) -/\n"
+    out += "def binJacRow (op : BinOp) (l r : Expr) (rowL rowR : Option (List Expr)) : Option (List Expr) :=\n"
+    out += "\n".join(lines) + "\n  none\n"
+    return out
+
+
 HEADER = """/-
   GENERATED by harness/gen_tables.py from the optyx sources — do not edit.
   Regenerated before every build; the theorems that mention these definitions are
@@ -770,12 +851,17 @@ def main(repo: str, outdir: str, dry: bool = False) -> int:
         return (HEADER + "import Optyx.Py.Sanitize\n\nnamespace Optyx.Generated\nopen Optyx Optyx.Py\n\n"
                 + gen_closure_tables(src("core/compiler.py"), src("core/autodiff.py")) + "\nend Optyx.Generated\n")
 
+    def f_jacrow():
+        return (HEADER + "import Optyx.Py.JacScale\n\nnamespace Optyx.Generated\nopen Optyx Optyx.Py\n\n"
+                + gen_binop_jacrow(src("core/expressions.py")) + "\nend Optyx.Generated\n")
+
     def f_glue():
         return (HEADER + "namespace Optyx.Generated\n\n" + gen_solver_glue(src("solvers/scipy_solver.py"))
                 + "\nend Optyx.Generated\n")
 
     changed, errors, h = False, {}, hashlib.sha256()
-    for fname, make in (("GradRules", f_rules), ("Tables", f_tables), ("Closures", f_closures), ("SolverGlue", f_glue)):
+    for fname, make in (("GradRules", f_rules), ("Tables", f_tables), ("Closures", f_closures), ("SolverGlue", f_glue),
+                        ("JacRow", f_jacrow)):
         path = os.path.join(outdir, fname + ".lean")
         try:
             text = make()
